@@ -1233,7 +1233,9 @@ func accessibleFrom(info *types.Info, node ast.Node, dst *types.Package) error {
 				unexportError = fmt.Errorf("%s is not declared in package scope", obj.Name())
 				return false
 			}
-			if pkg.Path() != wantPkg && !importableFrom(pkg.Path(), wantPkg) {
+			if obj.Parent() != nil && pkg.Path() != wantPkg && !importableFrom(pkg.Path(), wantPkg) {
+				// (Fields and methods have no parent scope: selecting one
+				// does not mention the package that declares it.)
 				unexportError = fmt.Errorf("uses internal package %s", pkg.Path())
 				return false
 			}
